@@ -346,7 +346,7 @@ func (r *runner) get(rd dbm.Snapshot, what string, k int) (string, *failure) {
 		return "", r.fail("error", what, "Has: "+err.Error())
 	}
 	if h != (v != nil) {
-		if r.in.v.wrap == "collecting" && v == nil && h {
+		if r.in.v.wrap == "collecting" && v == nil && h && r.expectEff(k) == "" {
 			// fails on the unchanged tree (BatchCollector.set copies with append([]byte(nil), value...),
 			// which turns a pending empty value into nil): reported under its own key, then the replay
 			// goes on with what Has says
@@ -779,6 +779,18 @@ func (r *runner) step(s mbt.Step) *failure {
 		return r.project(act, st)
 	}
 	return r.checkHeld()
+}
+
+// expectEff: what the spec says Get(k) returns now ("?" when unknown)
+func (r *runner) expectEff(k int) string {
+	if r.lastSt == nil {
+		return "?"
+	}
+	eff := mbt.Strs(r.lastSt["eff"])
+	if k-1 < len(eff) {
+		return eff[k-1]
+	}
+	return "?"
 }
 
 func (r *runner) addSoft(f *failure) {
